@@ -36,6 +36,8 @@ def enc(o):
         return [enc(x) for x in sorted(o, key=repr)]
     if isinstance(o, float) and (o != o or o in (float("inf"), float("-inf"))):
         return {"$f": repr(o)}
+    if isinstance(o, int) and not isinstance(o, bool) and o.bit_length() > 8192:
+        return {"$i": hex(o)}       # beyond Python's default int -> decimal str limit (json.dumps would raise)
     if o is None or isinstance(o, (bool, int, float, str)):
         return o
     return {"$r": repr(o)}
@@ -49,6 +51,8 @@ def dec(o):
             return {_hashable(dec(k)): dec(v) for k, v in o["$d"]}
         if set(o.keys()) == {"$f"}:
             return float(o["$f"])
+        if set(o.keys()) == {"$i"}:
+            return int(o["$i"], 16)
         return {k: dec(v) for k, v in o.items()}
     if isinstance(o, list):
         return [dec(x) for x in o]
@@ -81,6 +85,8 @@ def brief(o, limit=400):
         if len(o) > 24:
             r.append("…(%d items)" % len(o))
         return r
+    if isinstance(o, int) and not isinstance(o, bool) and o.bit_length() > 8192:
+        return "<%sint of %d bits>" % ("-" if o < 0 else "", o.bit_length())
     if o is None or isinstance(o, (bool, int, float)):
         return o
     return repr(o)[:80]
